@@ -333,6 +333,22 @@ pub fn run_bytes(case: &Case, out: &mut Outcome) -> Option<Failure> {
                     settle(&mut w, &plan, false);
                     w.make_stream(s);
                 }
+                // two more subscriptions: the stream of the first is taken and dropped at once (its
+                // registration stays until a message finds it dead), the second stays alive
+                for k in [20usize, 21] {
+                    let s2 = w.start_op(0, OpSpec::Subscribe(tagged_subscribe(k, 1))).unwrap();
+                    settle(&mut w, &plan, false);
+                    tr.update(&mut w);
+                    if let Some(pid) = tr.pid(s2) {
+                        feed_packet(&mut w, &rc::Packet::Suback(rc::AckList { pid, reasons: vec![0], ..Default::default() }), &rc::Form::canonical());
+                        settle(&mut w, &plan, false);
+                        if let Some(si) = w.make_stream(s2) {
+                            if k == 20 {
+                                w.drop_stream(si);
+                            }
+                        }
+                    }
+                }
                 w.start_op(0, OpSpec::Publish(tagged_publish(1, 1)));
                 w.start_op(0, OpSpec::Publish(tagged_publish(2, 2)));
                 w.start_op(0, OpSpec::Ping);
@@ -600,6 +616,26 @@ impl Property for C04 {
                     v.push(Case { phase, label: format!("truncate+fix-rl:{name}"), bytes: fixed.clone(), chunk: if k % 2 == 0 { 0 } else { 1 }, fault: Fault::None });
                 }
             }
+        }
+        // well-formed PUBLISH packets naming every pair and triple of subscription identifiers
+        // out of {alive, dead (stream dropped), alive and last registered, never registered}
+        let ids = [1u32, 2, 3, 9];
+        let mut lists: Vec<Vec<u32>> = vec![];
+        for a in ids {
+            for b in ids {
+                lists.push(vec![a, b]);
+                for c in ids {
+                    lists.push(vec![a, b, c]);
+                }
+            }
+        }
+        for (i, l) in lists.into_iter().enumerate() {
+            let qos = (i % 3) as u8;
+            let b = rc::encode(
+                &rc::Packet::Publish(rc::Publish { qos, pid: (qos > 0).then_some(40 + i as u16), topic: "multi".into(), payload: vec![1], subscription_ids: l, ..Default::default() }),
+                &rc::Form::canonical(),
+            );
+            v.push(Case { phase: Phase::Run, label: "publish-naming-several-subscriptions".into(), bytes: b, chunk: 0, fault: Fault::None });
         }
         // every property of every rich packet moved to the END of the property block in turn, and
         // the two-byte value at each of the last 14 offsets raised by 1 and by 2: a string / binary
